@@ -127,6 +127,7 @@ def ref_counts(rows, lag, sliding, n):
 
 
 ASSIGN_DTYPES = ('int64', 'int64', 'int32', 'int16', 'int8', 'uint8')
+WIDE_DTYPES = ('int64', 'int32', 'int16', 'uint16')        # for more than 127 states
 
 
 def make_assigns(rows, form, dtype='int64'):
@@ -137,7 +138,7 @@ def make_assigns(rows, form, dtype='int64'):
         return ra.RaggedArray([np.array(r, dtype=np.dtype(dtype)) for r in rows])
     if dtype.startswith('uint'):
         dtype = dtype[1:]
-    L = max(len(r) for r in rows)
+    L = max(1, max(len(r) for r in rows))
     a = -np.ones((len(rows), L), dtype=np.dtype(dtype))
     for i, r in enumerate(rows):
         a[i, :len(r)] = r
@@ -150,18 +151,30 @@ def mapping_dict(tm):
 
 # ----------------------------------------------------------------------------- fit
 
-def run_estimator(case):
+def build_estimator(case, a):
+    """construct and fit the way the case says: keyword / positional constructor, or the
+    MSM.from_assignments classmethod"""
     from enspara.msm import MSM, builders
     method = case['builder'] if case['by_name'] else getattr(builders, case['builder'], case['builder'])
+    lag = case['lag']
+    if case.get('np_lag'):
+        lag = (np.int32 if case.get('np_lag') == 'int32' else np.int64)(lag)
+    if case.get('via') == 'from_assignments':
+        return MSM.from_assignments(a, lag_time=lag, method=method, trim=case['trim'],
+                                    sliding_window=case['sliding'], max_n_states=case['max_n'])
+    if case.get('positional'):
+        m = MSM(lag, method, case['trim'], case['sliding'], case['max_n'])
+    else:
+        m = MSM(lag_time=lag, method=method, trim=case['trim'],
+                sliding_window=case['sliding'], max_n_states=case['max_n'])
+    m.fit(a)
+    return m
+
+
+def run_estimator(case):
     a = make_assigns(case['rows'], case['form'], case.get('dtype', 'int64'))
-    lag = np.int64(case['lag']) if case.get('np_lag') else case['lag']
     try:
-        if case.get('positional'):
-            m = MSM(lag, method, case['trim'], case['sliding'], case['max_n'])
-        else:
-            m = MSM(lag_time=lag, method=method, trim=case['trim'],
-                    sliding_window=case['sliding'], max_n_states=case['max_n'])
-        m.fit(a)
+        m = build_estimator(case, a)
     except Exception as e:  # noqa
         return None, type(e).__name__
     return m, None
@@ -226,6 +239,16 @@ def check_fit(ctx, case, m, err, pipe, model):
     tags = ['fit', 'lag=%d' % lag, 'builder=%s' % case['builder'], 'trim' if case['trim'] else 'no-trim',
             'sliding' if case['sliding'] else 'strided', 'explicit-n' if case['max_n'] is not None else 'inferred-n',
             case['form'], 'by-name' if case['by_name'] else 'callable', 'assigns-%s' % case.get('dtype', 'int64')]
+    if case.get('family'):
+        tags.append('fit-family=%s' % case['family'])
+    if case.get('via'):
+        tags.append('via-%s' % case['via'])
+    if case.get('np_lag'):
+        tags.append('lag-numpy-int')
+    if case.get('positional'):
+        tags.append('positional-args')
+    if model is None:
+        tags.append('model-skipped-size')
     nontrivial = False
     if 'raw' in pipe:
         n = pipe['raw'].shape[0]
@@ -235,7 +258,7 @@ def check_fit(ctx, case, m, err, pipe, model):
         if lag > 1 and not np.array_equal(ref_counts(rows, lag, case['sliding'], n),
                                           ref_counts(rows, 1, case['sliding'], n)):
             tags.append('lag-matters')
-        inferred = max(max(r) for r in rows) + 1
+        inferred = max([x for r in rows for x in r if x != -1], default=-1) + 1
         if case['max_n'] is not None and case['max_n'] != inferred:
             tags.append('state-count-matters')
         if case['trim'] and 'mapping' in pipe and len(pipe['mapping']) < n:
@@ -342,7 +365,9 @@ def gen_fit_case(rng, lag, builder, trim, sliding, explicit):
     return {'rows': rows, 'lag': lag, 'builder': builder, 'trim': trim, 'sliding': sliding,
             'max_n': max_n, 'form': 'ragged' if rng.random() < 0.5 else 'padded',
             'by_name': bool(rng.random() < 0.4), 'positional': bool(rng.random() < 0.3),
-            'dtype': str(rng.choice(ASSIGN_DTYPES)), 'np_lag': bool(rng.random() < 0.15)}
+            'dtype': str(rng.choice(ASSIGN_DTYPES)),
+            'np_lag': (str(rng.choice(['int64', 'int32'])) if rng.random() < 0.15 else False),
+            'via': ('from_assignments' if rng.random() < 0.15 else None)}
 
 
 def keep_states(case):
@@ -381,15 +406,103 @@ def section_fit(ctx):
         else:
             c['builder'], c['by_name'] = 'no_such_builder', True
         cases.append(c)
-    reqs = [fit_request(c, keep_states(c)) for c in cases]
-    resp = ctx.driver(reqs)
+    fitted = run_fit_cases(ctx, cases)
+    fitted += run_fit_cases(ctx, gen_family_cases(ctx))
+    return fitted
+
+
+def model_affordable(case):
+    """the Lean count matrix is a filter over all pairs per entry: n^2 * frames steps"""
+    frames = sum(len(r) for r in case['rows'])
+    nst = max(max([x for r in case['rows'] for x in r], default=0) + 1, case['max_n'] or 0)
+    return nst * nst * max(frames, 1) <= 1500000
+
+
+def run_fit_cases(ctx, cases):
+    idx = [i for i, c in enumerate(cases) if model_affordable(c)]
+    resp = ctx.driver([fit_request(cases[i], keep_states(cases[i])) for i in idx])
+    models = dict(zip(idx, resp))
     fitted = []
-    for c, r in zip(cases, resp):
+    for i, c in enumerate(cases):
         m, err, pipe = fit_real(c)
-        m = check_fit(ctx, c, m, err, pipe, r)
+        m = check_fit(ctx, c, m, err, pipe, models.get(i))
         if m is not None and err is None:
             fitted.append((c, m))
     return fitted
+
+
+FAMILIES = ('big-states', 'many-short', 'trim-to-one', 'shorter-than-lag', 'all-minus-one',
+            'one-minus-one-row', 'interior-minus-one', 'pendant-self-isolated')
+
+
+def gen_family_case(rng, family, big_n=300):
+    c = {'lag': int(rng.integers(1, 4)), 'builder': str(rng.choice(BUILDERS)), 'trim': bool(rng.integers(0, 2)),
+         'sliding': bool(rng.integers(0, 2)), 'max_n': None, 'form': 'ragged' if rng.random() < 0.5 else 'padded',
+         'by_name': bool(rng.random() < 0.4), 'positional': bool(rng.random() < 0.3), 'dtype': 'int64',
+         'np_lag': False, 'via': ('from_assignments' if rng.random() < 0.2 else None), 'family': family}
+    if family == 'big-states':
+        n = big_n
+        walk = (int(rng.integers(0, n)) + np.cumsum(rng.integers(1, 4, size=8 * n))) % n
+        rows = [[int(x) for x in walk]]
+        for _ in range(100):
+            st = int(rng.integers(0, n))
+            rows.append([(st + k * int(rng.integers(1, 3))) % n for k in range(int(rng.integers(2, 5)))])
+        # a few states beyond the walk that are reached once and never left (trimmed away)
+        rows.append([int(walk[5]), n, n + 1])
+        c.update(rows=rows, builder=str(rng.choice(['normalize', 'transpose', 'transpose'])),
+                 dtype=str(rng.choice(WIDE_DTYPES)), form='ragged',
+                 max_n=(None if rng.random() < 0.5 else n + 2 + int(rng.integers(0, 40))))
+    elif family == 'many-short':
+        nst = int(rng.integers(2, 7))
+        rows = [[int(x) for x in rng.integers(0, nst, size=int(rng.integers(1, 5)))]
+                for _ in range(int(rng.integers(150, 400)))]
+        c.update(rows=rows, builder=str(rng.choice(['normalize', 'transpose'])), lag=int(rng.integers(1, 3)),
+                 dtype=str(rng.choice(ASSIGN_DTYPES)), form='ragged')
+    elif family == 'trim-to-one':
+        s0 = int(rng.integers(0, 4))
+        others = [x for x in range(5) if x != s0]
+        tail = [int(x) for x in rng.permutation(others)[:int(rng.integers(1, 4))]]
+        c.update(rows=[[s0] * int(rng.integers(4, 9)) + tail], trim=True, lag=1,
+                 max_n=(None if rng.random() < 0.5 else 6))
+    elif family == 'shorter-than-lag':
+        L = int(rng.integers(1, 4))
+        c.update(rows=[[int(x) for x in rng.integers(0, 3, size=L)]], lag=L + int(rng.integers(0, 3)),
+                 max_n=(None if rng.random() < 0.5 else 4))
+    elif family == 'all-minus-one':
+        c.update(rows=[[-1] * int(rng.integers(1, 6)) for _ in range(int(rng.integers(1, 4)))],
+                 max_n=(None if rng.random() < 0.4 else int(rng.integers(1, 4))),
+                 builder=str(rng.choice(['normalize', 'transpose'])))
+    elif family == 'one-minus-one-row':
+        rows = gen_rows(rng)
+        rows.insert(int(rng.integers(0, len(rows) + 1)), [-1] * int(rng.integers(1, 8)))
+        c.update(rows=rows, builder=str(rng.choice(['normalize', 'transpose'])))
+    elif family == 'interior-minus-one':
+        rows = gen_rows(rng)
+        rows = [[(-1 if (len(r) > 2 and rng.random() < 0.2) else x) for x in r] for r in rows]
+        if all(x == -1 for r in rows for x in r):
+            rows[0][0] = 0
+        c.update(rows=rows, builder=str(rng.choice(['normalize', 'transpose'])))
+    elif family == 'pendant-self-isolated':
+        core = [int(x) for x in rng.integers(0, 2, size=int(rng.integers(8, 16)))]
+        k = int(rng.integers(1, len(core) - 1))
+        core = core[:k] + [1, 2, 1] + core[k:]          # pendant state 2: one partner, no self count
+        c.update(rows=[core, [3] * int(rng.integers(2, 6))],     # state 3: self counts only; 4, 5: never seen
+                 max_n=(None if rng.random() < 0.3 else 6))
+    else:
+        raise ValueError(family)
+    return c
+
+
+def gen_family_cases(ctx):
+    rng = ctx.rng
+    cases = []
+    for fam in FAMILIES:
+        if fam == 'big-states':
+            sizes = [300, 520] if not ctx.thorough else [300] * 6 + [520] * 4 + [1100]
+            cases += [gen_family_case(rng, fam, n) for n in sizes]
+        else:
+            cases += [gen_family_case(rng, fam) for _ in range(ctx.n(6, 80))]
+    return cases
 
 
 # ----------------------------------------------------------------------------- save / load
@@ -400,17 +513,34 @@ def check_saveload(ctx, case, m, model=None):
     base = tempfile.mkdtemp(prefix='c16_msm_')
     try:
         path = os.path.join(base, 'model')
+        stage, zero_d = 'save and load', False
         try:
             with quiet():
-                m.save(path)
+                if case.get('filenames'):
+                    m.save(path, mapping_='map.csv', tcounts_='C.mtx', tprobs_='T.mtx',
+                           eq_probs_='pops.dat', config='cfg.pkl')
+                else:
+                    m.save(path)
                 m2 = MSM.load(path)
+                if case.get('resave'):
+                    # second generation: what was loaded is saved and loaded again
+                    stage = 'second save of the loaded model'
+                    zero_d = np.ndim(m2.eq_probs_) == 0
+                    path2 = os.path.join(base, 'model2')
+                    m2.save(path2)
+                    m2 = MSM.load(path2)
         except Exception as e:  # noqa
-            ctx.violation('MSM.save / MSM.load raised %s: %s' % (type(e).__name__, str(e)[:200]), rep)
+            key = None
+            if stage.startswith('second') and zero_d and isinstance(e, ValueError):
+                key = 'load-one-state-eq-probs-0d'       # np.loadtxt gives a 0-d array for one state
+            ctx.violation('MSM.save / MSM.load raised %s (%s): %s' % (type(e).__name__, stage, str(e)[:200]), rep, key=key)
             return
     finally:
         shutil.rmtree(base, ignore_errors=True)
-    ctx.case(rep, nontrivial=True, tags=['saveload', 'saveload-%s' % case['builder'],
-                                         'saveload-states=%d' % min(dense(m.tcounts_).shape[0], 4)])
+    ctx.case(rep, nontrivial=True, tags=['saveload', 'saveload-%s' % case['builder']]
+             + (['saveload-custom-filenames'] if case.get('filenames') else [])
+             + (['saveload-second-generation'] if case.get('resave') else []) + [
+                                         'saveload-states=%s' % (lambda k: '>255' if k > 255 else ('4+' if k >= 4 else str(k)))(dense(m.tcounts_).shape[0])])
     bad = []
     if m2.lag_time != m.lag_time or type(m2.lag_time) is not type(m.lag_time):  # pickle keeps the type
         bad.append('lag_time')
@@ -459,12 +589,42 @@ def saveload_request(case, m):
             'pairs': [[o, t] for t, o in mp.items()]}
 
 
+def check_save_force(ctx, case, m):
+    """save(path, force=True) over an existing model directory (docstring: overwrite it)"""
+    from enspara.msm import MSM
+    rep = dict(case, kind='saveforce')
+    base = tempfile.mkdtemp(prefix='c16_msm_')
+    try:
+        path = os.path.join(base, 'model')
+        ctx.case(rep, nontrivial=True, tags=['saveload-force-overwrite'])
+        try:
+            with quiet():
+                m.save(path)
+                m.save(path, force=True)
+                m2 = MSM.load(path)
+        except Exception as e:  # noqa
+            ctx.violation('MSM.save(path, force=True) over an existing model directory raised %s' % type(e).__name__,
+                          rep, key='save-force-existing-dir' if isinstance(e, OSError) else None)
+            return
+        if mapping_dict(m2.mapping_) != mapping_dict(m.mapping_) or not np.array_equal(dense(m2.tprobs_), dense(m.tprobs_)):
+            ctx.violation('MSM.save(force=True) then load gives a different model', rep)
+    finally:
+        shutil.rmtree(base, ignore_errors=True)
+
+
 def section_saveload(ctx, fitted):
     step = ctx.n(2, 2)
-    sel = fitted[::step]
+    sel = []
+    for k, (c, m) in enumerate(fitted[::step]):
+        c = dict(c, filenames=(k % 5 == 1), resave=(k % 4 == 2))
+        sel.append((c, m))
+    # the size / degenerate families always take part
+    sel += [(dict(c, filenames=False, resave=True), m) for c, m in fitted[1::step] if c.get('family')]
     resp = ctx.driver([saveload_request(c, m) for c, m in sel])
     for (c, m), r in zip(sel, resp):
         check_saveload(ctx, c, m, r)
+    for c, m in fitted[:ctx.n(2, 10)]:
+        check_save_force(ctx, c, m)
 
 
 # ----------------------------------------------------------------------------- TrimMapping
@@ -552,15 +712,44 @@ def gen_T(rng, kind, n):
     if kind == 'two':
         a, b = (int(x) / 16.0 for x in rng.integers(1, 16, size=2))
         return np.array([[1 - a, a], [b, 1 - b]])
+    if kind in ('metastable', 'twin-blocks'):
+        return normalise_rows(gen_W(rng, kind, n))
+    if kind == 'single':
+        return np.array([[1.0]])
     raise ValueError(kind)
 
 
+def gen_W(rng, kind, n):
+    """symmetric weight matrix of a reversible chain with two blocks coupled by a tiny weight: the
+    second eigenvalue is 1 - O(coupling); stationary distribution = row sums / total (closed form).
+    'twin-blocks': the two blocks are copies of each other, so the spectrum comes in pairs split by
+    O(coupling) (nearly degenerate eigenvalues)."""
+    half = max(1, n // 2)
+    eps = float(rng.choice([1e-5, 1e-6, 1e-7, 1e-8]))
+    W = np.zeros((n, n))
+    A = rng.random((half, half)) + 0.1
+    A = A + A.T
+    W[:half, :half] = A
+    if kind == 'twin-blocks' and n == 2 * half:
+        W[half:, half:] = A
+    else:
+        B = rng.random((n - half, n - half)) + 0.1
+        W[half:, half:] = B + B.T
+    i, j = int(rng.integers(0, half)), int(rng.integers(half, n))
+    W[i, j] = W[j, i] = eps
+    return W
+
+
 EIG_KINDS = ('dense', 'cyclic', 'bipartite', 'reversible', 'ring', 'two')
+EXTRA_EIG_KINDS = ('perm', 'metastable', 'twin-blocks', 'single')
 
 
 def gen_eig_case(rng, kind=None):
-    kind = kind or str(rng.choice(EIG_KINDS + ('perm',)))
-    n = 2 if kind == 'two' else int(rng.integers(2, 9))
+    kind = kind or str(rng.choice(EIG_KINDS + EXTRA_EIG_KINDS))
+    n = 2 if kind == 'two' else (1 if kind == 'single' else int(rng.integers(2, 9)))
+    if kind == 'twin-blocks':
+        n = 2 * int(rng.integers(1, 5))
+    extra = {}
     if kind == 'perm':
         # integer dtype: a single n-cycle (irreducible; unique stationary distribution, the other
         # unit-modulus eigenvalues have real part < 1)
@@ -569,15 +758,26 @@ def gen_eig_case(rng, kind=None):
         for i in range(n):
             T[order[i], order[(i + 1) % n]] = 1
         dtype = 'int64'
+    elif kind in ('metastable', 'twin-blocks'):
+        W = gen_W(rng, kind, n)
+        T = normalise_rows(W)
+        extra['pi'] = (W.sum(axis=1) / W.sum()).tolist()      # closed form for a reversible chain
+        dtype = 'float64'
+    elif kind == 'single':
+        T, dtype = np.array([[1.0]]), 'float64'
     else:
         T = gen_T(rng, kind, n)
         dtype = 'float32' if rng.random() < 0.25 else 'float64'
         if dtype == 'float32':
             T = T.astype(np.float32).astype(np.float64)
     r = rng.random()
-    n_eigs = None if r < 0.4 else (int(rng.integers(2, n + 1)) if r < 0.9 else n + 2)
-    return {'T': T.tolist(), 'kind_T': kind, 'n_eigs': n_eigs, 'left': bool(rng.random() < 0.8),
-            'form': str(rng.choice(['dense', 'dense', 'csr', 'coo'])), 'dtype': dtype}
+    if kind == 'single':
+        n_eigs = None if r < 0.7 else 2            # n_eigs=1 is refused by the guard
+    else:
+        n_eigs = None if r < 0.4 else (int(rng.integers(2, n + 1)) if r < 0.9 else n + 2)
+    return dict({'T': T.tolist(), 'kind_T': kind, 'n_eigs': n_eigs, 'left': bool(rng.random() < 0.8),
+                 'form': str(rng.choice(['dense', 'dense', 'csr', 'coo'])), 'dtype': dtype,
+                 'n_eigs_np': bool(n_eigs is not None and rng.random() < 0.3)}, **extra)
 
 
 def eig_arg(case):
@@ -617,6 +817,11 @@ def check_eig(ctx, case, model, raw_vals):
     f = 3e4 if case.get('dtype') == 'float32' else 1.0
     tight = 1e-5 if case.get('dtype') == 'float32' else 1e-12
     mu = np.linalg.eigvals(T)                  # independent of the library's call
+    # the eigenvector of eigenvalue one is determined to about machine-eps / gap only (gap = distance of the
+    # second eigenvalue from one): comparisons of the vector itself are conditioned on it, residuals are not
+    re_sorted = np.sort(mu.real)[::-1]
+    gap = float(1 - re_sorted[1]) if n > 1 else 1.0
+    vec_tol = 1e-13 / max(gap, 1e-12)
     has_complex = bool(np.any(np.abs(mu.imag) > 1e-9))
     has_negative = bool(np.any((np.abs(mu.imag) <= 1e-9) & (mu.real < -1e-9)))
     ctx.case(rep, nontrivial=True,
@@ -624,10 +829,14 @@ def check_eig(ctx, case, model, raw_vals):
                    'eig-left' if case['left'] else 'eig-right', 'eig-dtype=%s' % case.get('dtype', 'float64'),
                    'eig-n_eigs=%s' % ('None' if case['n_eigs'] is None else
                                       ('>n' if case['n_eigs'] > n else ('n' if case['n_eigs'] == n else '<n')))]
-             + (['eig-complex-pair'] if has_complex else []) + (['eig-negative'] if has_negative else []))
+             + (['eig-complex-pair'] if has_complex else []) + (['eig-negative'] if has_negative else [])
+             + (['eig-gap<1e-4'] if gap < 1e-4 else []) + (['eig-gap<1e-6'] if gap < 1e-6 else [])
+             + (['eig-n_eigs-numpy-int'] if case.get('n_eigs_np') else [])
+             + (['eig-near-degenerate-pair'] if n > 2 and np.min(np.diff(-re_sorted)) < 1e-6 else []))
     try:
         with quiet():
-            vals, vecs = eigenspectrum(arg, n_eigs=case['n_eigs'], left=case['left'])
+            vals, vecs = eigenspectrum(arg, n_eigs=(np.int64(case['n_eigs']) if case.get('n_eigs_np') else case['n_eigs']),
+                                       left=case['left'])
     except Exception as e:  # noqa
         ctx.violation('eigenspectrum raised %s on an ergodic transition matrix' % type(e).__name__, rep)
         return
@@ -658,8 +867,13 @@ def check_eig(ctx, case, model, raw_vals):
         return
     M = T if case['left'] else T.T            # v^T M = lambda v^T
     if case['left']:
-        pi = stationary(T)
-        if np.max(np.abs(v0 @ T - v0)) > 1e-9 * f or np.max(np.abs(v0 - pi)) > 1e-8 * f or v0.min() < -1e-10 * f:
+        if case['kind_T'] in ('metastable', 'twin-blocks'):
+            # closed form of a reversible chain: T = D^-1 W with W symmetric  =>  pi = diag(D) / sum
+            # (T's rows are W's rows over the row sums, so W is recovered up to the row scaling)
+            pi = np.array(case['pi'])
+        else:
+            pi = stationary(T)
+        if np.max(np.abs(v0 @ T - v0)) > 1e-9 * f or np.max(np.abs(v0 - pi)) > 1e-8 * f + vec_tol or v0.min() < -1e-10 * f - vec_tol:
             ctx.violation('first left eigenvector is not the stationary distribution', dict(rep, v0=v0.tolist(), pi=pi.tolist()))
             return
     else:
@@ -718,7 +932,7 @@ def check_eig(ctx, case, model, raw_vals):
 
 def section_eig(ctx):
     rng = ctx.rng
-    cases = [gen_eig_case(rng, kind) for kind in EIG_KINDS + ('perm',) for _ in range(ctx.n(4, 100))]
+    cases = [gen_eig_case(rng, kind) for kind in EIG_KINDS + EXTRA_EIG_KINDS for _ in range(ctx.n(4, 100))]
     cases += [gen_eig_case(rng) for _ in range(ctx.n(126, 4000))]
     reqs, raws = [], []
     for c in cases:
@@ -767,6 +981,7 @@ def check_timescales(ctx, case, model_nt):
                                          'timescales-trim' if case['trim'] else 'timescales-no-trim',
                                          'timescales-sliding' if case['sliding'] else 'timescales-strided',
                                          'timescales-assigns-%s' % case.get('dtype', 'int64'),
+                                         'timescales-metastable' if case.get('metastable') else 'timescales-mixing',
                                          'timescales-lags-%s' % case.get('lags_kind', 'list')])
     # by hand: fitted T per lag, the library's own (separately checked) eigenspectrum, and an independent one
     expected, indep = [], []
@@ -810,9 +1025,14 @@ def check_timescales(ctx, case, model_nt):
         # independent eigenvalues; only where the formula is well conditioned
         mu = indep[i][1]
         for j in range(min(len(mu), got.shape[1])):
-            if 1e-3 < mu[j] < 1 - 1e-3:
+            # t = -lag / log(mu): a perturbation d of mu changes t by the relative amount d / (mu |log mu|);
+            # the comparison is made where that amplification of LAPACK's ~1e-10 is still small
+            kappa = 1.0 / (mu[j] * abs(np.log(mu[j]))) if 0 < mu[j] < 1 else np.inf
+            if kappa <= 1e6:
                 t = -lag / np.log(mu[j])
-                if not abs(got[i, j] - t) <= 1e-6 * abs(t):
+                if kappa > 1e3:
+                    ctx.tag('timescales-eigenvalue-within-1e-3-of-one')
+                if not abs(got[i, j] - t) <= (1e-8 + 1e-10 * kappa) * abs(t):
                     ctx.violation('implied timescale %d for lag %d differs from -lag/log of the independent eigenvalue'
                                   % (j, lag), dict(rep, lag=lag, got=float(got[i, j]), expected=float(t)))
                     return
@@ -820,18 +1040,27 @@ def check_timescales(ctx, case, model_nt):
                 ctx.tag('timescales-illconditioned-or-nonpositive-eigenvalue')
 
 
-def gen_timescales(rng):
+def gen_timescales(rng, metastable=0):
     nstates = int(rng.integers(2, 7))
     rows = []
-    for _ in range(int(rng.integers(1, 4))):
-        L = int(rng.integers(25, 60))
-        rows.append([int(x) for x in rng.integers(0, nstates, size=L)])
+    if metastable:
+        # two groups of two states, one crossing each way in `metastable` frames: slowest eigenvalue
+        # about 1 - 4/metastable
+        nstates = 4
+        third = metastable // 3
+        seg = [rng.integers(0, 2, size=third), 2 + rng.integers(0, 2, size=third), rng.integers(0, 2, size=third)]
+        rows.append([int(x) for x in np.concatenate(seg)])
+    else:
+        for _ in range(int(rng.integers(1, 4))):
+            L = int(rng.integers(25, 60))
+            rows.append([int(x) for x in rng.integers(0, nstates, size=L)])
     rows[0][:nstates] = list(range(nstates))       # every state is visited
     trim = bool(rng.random() < 0.3)
     lags = [int(rng.integers(1, 5))] if trim else sorted({int(x) for x in rng.integers(1, 5, size=int(rng.integers(1, 4)))})
     r = rng.random()
     n_times = None if r < 0.3 else int(rng.integers(1, nstates + 2))
-    return {'rows': rows, 'lags': lags, 'builder': str(rng.choice(BUILDERS)), 'n_times': n_times,
+    return {'rows': rows, 'lags': lags, 'builder': str(rng.choice(BUILDERS if not metastable else ('transpose', 'normalize'))),
+            'n_times': n_times, 'metastable': metastable,
             'sliding': bool(rng.random() < 0.6), 'trim': trim,
             'form': 'ragged' if rng.random() < 0.5 else 'padded',
             'dtype': str(rng.choice(ASSIGN_DTYPES)), 'lags_kind': str(rng.choice(['list', 'tuple', 'ndarray']))}
@@ -844,6 +1073,7 @@ def timescales_request(case):
 
 def section_timescales(ctx):
     cases = [gen_timescales(ctx.rng) for _ in range(ctx.n(60, 1500))]
+    cases += [gen_timescales(ctx.rng, metastable=k) for k in ([3000, 30000] if not ctx.thorough else [3000] * 6 + [30000] * 4 + [300000])]
     resp = ctx.driver([timescales_request(c) for c in cases])
     for c, r in zip(cases, resp):
         check_timescales(ctx, c, int(r['ok']))
@@ -986,6 +1216,168 @@ def section_ensemble(ctx):
         check_ensemble(ctx, c, r)
 
 
+# ----------------------------------------------------------------------------- call history / object reuse
+
+def fit_diff(m, pipe):
+    """name of the first fitted attribute of `m` that differs from the hand-composed pipeline result"""
+    if mapping_dict(m.mapping_) != pipe['mapping']:
+        return 'mapping_'
+    tc = dense(m.tcounts_)
+    if tc.shape != pipe['tcounts'].shape or not np.array_equal(tc, pipe['tcounts']):
+        return 'tcounts_'
+    if not close(dense(m.tprobs_), pipe['tprobs']):
+        return 'tprobs_'
+    if not close(np.asarray(m.eq_probs_, dtype=float), pipe['eq']):
+        return 'eq_probs_'
+    return None
+
+
+def assigns_bytes(a):
+    return (a._data if hasattr(a, '_data') else a).tobytes()
+
+
+def check_history(ctx, case):
+    """one estimator, two data sets (A then B), B fitted twice; a second estimator; results held by the
+    caller; the caller's arrays changed afterwards"""
+    from enspara.msm import MSM, builders
+    repA = dict(case, kind='history')
+    cA = dict(case, rows=case['rows'])
+    cB = dict(case, rows=case['rows_b'])
+    ctx.case(repA, nontrivial=True, tags=['history', 'history-%s' % case['builder'],
+                                          'history-trim' if case['trim'] else 'history-no-trim', 'history-' + case['form']])
+    with quiet():
+        pA, pB = run_pipeline(cA), run_pipeline(cB)
+    if 'error' in pA or 'error' in pB:
+        ctx.skip('history: a builder guard raised on one of the two data sets')
+        return
+    a = make_assigns(cA['rows'], case['form'], case.get('dtype', 'int64'))
+    b = make_assigns(cB['rows'], case['form'], case.get('dtype', 'int64'))
+    a0, b0 = assigns_bytes(a), assigns_bytes(b)
+    method = getattr(builders, case['builder'])
+    try:
+        with quiet():
+            m = MSM(lag_time=case['lag'], method=method, trim=case['trim'], sliding_window=case['sliding'],
+                    max_n_states=case['max_n'])
+            m.fit(a)
+            d = fit_diff(m, pA)
+            if d:
+                ctx.violation('first fit: %s differs from the pipeline' % d, dict(repA, attribute=d))
+                return
+            held = {'tcounts_': m.tcounts_, 'tprobs_': m.tprobs_, 'eq_probs_': m.eq_probs_}
+            held_map = m.mapping_
+            snap = {k: dense(v).copy() if k != 'eq_probs_' else np.array(v, dtype=float) for k, v in held.items()}
+            snap_map = mapping_dict(held_map)
+            m.fit(b)
+            d = fit_diff(m, pB)
+            if d:
+                ctx.violation('an estimator fitted a second time on other data: %s is not the pipeline result for '
+                              'the new data' % d, dict(repA, attribute=d, step='refit'))
+                return
+            m.fit(b)                                   # the same argument object again
+            d = fit_diff(m, pB)
+            if d:
+                ctx.violation('fitting twice on the same array object changes %s' % d, dict(repA, attribute=d, step='same-object'))
+                return
+            m1 = MSM(lag_time=case['lag'], method=method, trim=case['trim'], sliding_window=case['sliding'],
+                     max_n_states=case['max_n'])
+            m1.fit(a)
+            m2 = MSM(lag_time=case['lag'], method=method, trim=case['trim'], sliding_window=case['sliding'],
+                     max_n_states=case['max_n'])
+            m2.fit(b)
+            d = fit_diff(m1, pA)
+            if d:
+                ctx.violation('fitting a second estimator changed %s of the first one' % d, dict(repA, attribute=d, step='two-estimators'))
+                return
+    except Exception as e:  # noqa
+        ctx.violation('refitting raised %s where both pipelines work' % type(e).__name__, repA)
+        return
+    for k, v in held.items():
+        now = dense(v) if k != 'eq_probs_' else np.array(v, dtype=float)
+        if now.shape != snap[k].shape or not np.array_equal(now, snap[k], equal_nan=True):
+            ctx.violation('the %s object obtained from the first fit was changed by a later fit' % k,
+                          dict(repA, attribute=k, step='held-result'))
+            return
+    if mapping_dict(held_map) != snap_map:
+        ctx.violation('the mapping_ object obtained from the first fit was changed by a later fit', dict(repA, step='held-result'))
+        return
+    if assigns_bytes(a) != a0 or assigns_bytes(b) != b0:
+        ctx.violation('MSM.fit changed the caller\'s assignments', dict(repA, step='input-modified'))
+        return
+    # the fitted arrays must not be views of the caller's assignments
+    buf = a._data if hasattr(a, '_data') else a
+    buf[...] = np.where(buf == -1, -1, 0)
+    d = fit_diff(m1, pA)
+    if d:
+        ctx.violation('overwriting the caller\'s assignment array after fit changed the estimator\'s %s' % d,
+                      dict(repA, attribute=d, step='alias'))
+
+
+def gen_history(rng):
+    c = gen_fit_case(rng, int(rng.integers(1, 4)), str(rng.choice(BUILDERS)), bool(rng.integers(0, 2)),
+                     bool(rng.integers(0, 2)), bool(rng.integers(0, 2)))
+    dense_counts = c['builder'] == 'mle'
+    c['rows'] = gen_rows(rng, dense_counts=dense_counts)
+    c['rows_b'] = gen_rows(rng, dense_counts=dense_counts)
+    if c['max_n'] is not None:
+        c['max_n'] = max(max(max(r) for r in c['rows']), max(max(r) for r in c['rows_b'])) + 1 + int(rng.integers(0, 2))
+    c['by_name'] = False
+    return c
+
+
+def check_repeat_calls(ctx, rng):
+    """the same argument objects handed to the spectral / propagation functions twice"""
+    import scipy.sparse
+    from enspara.msm.transition_matrices import eigenspectrum
+    from enspara.msm.synthetic_data import synthetic_ensemble
+    from enspara.msm import implied_timescales, builders
+    n = int(rng.integers(2, 7))
+    T = gen_T(rng, str(rng.choice(['dense', 'cyclic', 'reversible'])), n)
+    form = str(rng.choice(['dense', 'csr']))
+    arg = T.copy() if form == 'dense' else scipy.sparse.csr_matrix(T)
+    rep = {'kind': 'repeat', 'T': T.tolist(), 'form': form}
+    ctx.case(rep, nontrivial=True, tags=['repeat-calls', 'repeat-' + form])
+    with quiet():
+        r1 = eigenspectrum(arg)
+        r2 = eigenspectrum(arg)
+    if not np.array_equal(dense(arg), T):
+        ctx.violation('eigenspectrum changed its input matrix', dict(rep, fn='eigenspectrum'))
+        return
+    if not (np.array_equal(r1[0], r2[0]) and np.array_equal(r1[1], r2[1])):
+        ctx.violation('eigenspectrum returns a different spectrum when called again on the same object', dict(rep, fn='eigenspectrum'))
+        return
+    p0 = np.zeros(n, dtype=int)
+    p0[0] = 1
+    with quiet():
+        e1 = synthetic_ensemble(arg, p0, 4)
+        keep = (np.array(e1[0], dtype=float), np.array(e1[1], dtype=float))
+        e2 = synthetic_ensemble(arg, p0, 4)
+    if not np.array_equal(dense(arg), T) or p0.tolist() != [1] + [0] * (n - 1):
+        ctx.violation('synthetic_ensemble changed its arguments', dict(rep, fn='synthetic_ensemble'))
+        return
+    want = np.array([p0 @ np.linalg.matrix_power(T, k) for k in range(4)])
+    for e in (e1, e2):
+        if not close(e[1], want) or not close(e[0], want[-1]) or not close(keep[1], want):
+            ctx.violation('synthetic_ensemble differs from p0 T^k when called again on the same objects', dict(rep, fn='synthetic_ensemble'))
+            return
+    rows = gen_rows(rng, dense_counts=True)
+    rows[0][:3] = [0, 1, 0]
+    a = make_assigns(rows, 'padded')
+    a0 = a.tobytes()
+    with quiet():
+        t1 = implied_timescales(a, [1, 2], builders.transpose, n_times=2)
+        t2 = implied_timescales(a, [1, 2], builders.transpose, n_times=2)
+    if a.tobytes() != a0 or not np.array_equal(t1, t2, equal_nan=True):
+        ctx.violation('implied_timescales changed its assignments or its answer on a second call',
+                      dict(rep, fn='implied_timescales', rows=rows))
+
+
+def section_history(ctx):
+    for _ in range(ctx.n(30, 400)):
+        check_history(ctx, gen_history(ctx.rng))
+    for _ in range(ctx.n(10, 100)):
+        check_repeat_calls(ctx, ctx.rng)
+
+
 # ----------------------------------------------------------------------------- entry points
 
 def run(ctx):
@@ -996,7 +1388,7 @@ def run(ctx):
     wall['fit'] = round(time.time() - t, 1)
     for name, fn in (('saveload', lambda: section_saveload(ctx, fitted)), ('mapping', lambda: section_mapping(ctx)),
                      ('eig', lambda: section_eig(ctx)), ('timescales', lambda: section_timescales(ctx)),
-                     ('ensemble', lambda: section_ensemble(ctx))):
+                     ('ensemble', lambda: section_ensemble(ctx)), ('history', lambda: section_history(ctx))):
         t = time.time()
         fn()
         wall[name] = round(time.time() - t, 1)
@@ -1005,28 +1397,41 @@ def run(ctx):
 
 def replay(ctx, data):
     kind = data.get('kind', 'fit')
-    if kind in ('fit', 'saveload'):
+    if kind == 'saveforce':
+        c = {k: data[k] for k in ('rows', 'lag', 'builder', 'trim', 'sliding', 'max_n', 'form', 'by_name')}
+        c['dtype'] = data.get('dtype', 'int64')
+        m, err, pipe = fit_real(c)
+        if m is not None:
+            check_save_force(ctx, c, m)
+    elif kind in ('fit', 'saveload'):
         c = {k: data[k] for k in ('rows', 'lag', 'builder', 'trim', 'sliding', 'max_n', 'form', 'by_name')}
         c['positional'] = bool(data.get('positional'))
         c['dtype'] = data.get('dtype', 'int64')
-        c['np_lag'] = bool(data.get('np_lag'))
-        r = ctx.driver([fit_request(c, keep_states(c))])[0]
+        c['np_lag'] = data.get('np_lag', False)
+        c['via'] = data.get('via')
+        c['family'] = data.get('family')
+        r = ctx.driver([fit_request(c, keep_states(c))])[0] if model_affordable(c) else None
         m, err, pipe = fit_real(c)
         m = check_fit(ctx, c, m, err, pipe, r)
         if kind == 'saveload' and m is not None and err is None:
-            check_saveload(ctx, c, m, ctx.driver([saveload_request(c, m)])[0])
+            c2 = dict(c, filenames=bool(data.get('filenames')), resave=bool(data.get('resave')))
+            check_saveload(ctx, c2, m, ctx.driver([saveload_request(c, m)])[0])
     elif kind == 'mapping':
         c = {'pairs': data['pairs']}
         check_mapping(ctx, c, ctx.driver([{'op': 'C16.mapping', 'pairs': c['pairs']}])[0])
     elif kind == 'eig':
         c = {k: data[k] for k in ('T', 'kind_T', 'n_eigs', 'left', 'form')}
         c['dtype'] = data.get('dtype', 'float64')
+        c['n_eigs_np'] = bool(data.get('n_eigs_np'))
+        if 'pi' in data:
+            c['pi'] = data['pi']
         r, raw = eig_request(c)
         check_eig(ctx, c, ctx.driver([r])[0], raw)
     elif kind == 'timescales':
         c = {k: data[k] for k in ('rows', 'lags', 'builder', 'n_times', 'sliding', 'trim', 'form')}
         c['dtype'] = data.get('dtype', 'int64')
         c['lags_kind'] = data.get('lags_kind', 'list')
+        c['metastable'] = data.get('metastable', 0)
         check_timescales(ctx, c, int(ctx.driver([timescales_request(c)])[0]['ok']))
     elif kind == 'ensemble':
         c = {k: data[k] for k in ('T', 'p', 'n_steps', 'form', 'obs')}
@@ -1034,7 +1439,10 @@ def replay(ctx, data):
             if k in data:
                 c[k] = data[k]
         check_ensemble(ctx, c, ctx.driver([ensemble_request(c)])[0])
-    elif kind == 'eig-guard':
+    elif kind == 'history':
+        c = {k: v for k, v in data.items() if k not in ('kind', 'attribute', 'step')}
+        check_history(ctx, c)
+    elif kind in ('eig-guard', 'repeat'):
         pass
     else:
         raise ValueError('unknown replay kind %r' % kind)
